@@ -220,6 +220,17 @@ class Taint:
             return self.call_class(fi, o, env, depth + 1)
         if k == "item":
             base = o[1]
+            while base[0] == "call" and base[1] in ("builtins.tuple", "builtins.list") and len(base[2]) == 1 and not base[3]:
+                base = base[2][0]       # tuple(x)[k] is x[k]
+            if base[0] == "phi":
+                out = None
+                for alt in base[1]:
+                    c = self.classify(fi, ("item", alt, o[2]), env, depth + 1)
+                    out = c if out is None else out.join(c)
+                if out is not None:
+                    return out
+            if base[0] == "tuple" and isinstance(o[2], int) and -len(base[1]) <= o[2] < len(base[1]):
+                return self.classify(fi, base[1][o[2]], env, depth + 1)
             if base[0] == "call" and base[1] in self.project.funcs:
                 return self.return_class(self.project.funcs[base[1]], self.bind_env(fi, base, env, depth), o[2], depth + 1)
             if base[0] == "elem":
@@ -586,6 +597,8 @@ class Taint:
             return self.value_is_markup(fi, nid, val.body) and self.value_is_markup(fi, nid, val.orelse)
         if isinstance(val, ast.Call):
             q = org.scope.resolve_call(val)
+            if q == "builtins.str" and len(val.args) == 1 and not val.keywords:
+                return self.value_is_markup(fi, nid, val.args[0])       # str() of a string is that string
             if q in self.project.funcs:
                 return self.builder_returns_markup(self.project.funcs[q])
             f = val.func
